@@ -571,7 +571,12 @@ def run_case(case, wroot, audit=True):
     os.chdir(os.path.join(root, "cwd"))
     traces = []
     try:
-        members, canaries = concretise(case["members"], root, rng, rich=case.get("rich", False),
+        abstract = case["members"]
+        if case["fmt"] == "7z":
+            # 7z hands the data streams to the entries in listing order: an entry without stream can only
+            # follow the entries that have one (the case is normalised, not rejected)
+            abstract = [m for m in abstract if m["kind"] != "nostream"] + [m for m in abstract if m["kind"] == "nostream"]
+        members, canaries = concretise(abstract, root, rng, rich=case.get("rich", False),
                                        limit=case.get("limit", SMALL_LIMIT), tok0=case.get("tok0", 1))
         for p, w in canaries:
             os.makedirs(os.path.dirname(p), exist_ok=True)
